@@ -103,6 +103,7 @@ ASSUMPTIONS = ['finite real input, dt > 0, target_dt > 0, duration (n-1)*dt >= 2
                'fresh AccSignal built from a copy of those values - judged also outside the quantifier, where both may raise',
                'the all-zero record is a record: its range is {0}, every clause applies (band-limited tolerance 1e-10*max|x| = 0: '
                'the output must be exactly zero)']
+OOD_PURITY = 'purity.rejected-or-out-of-domain-call-args-unchanged'
 MIN_EVALS = {
     'quick': {'interp.step<=target': 12000, 'interp.ratio-integer': 12000, 'interp.retained-samples': 7000,
               'interp.subsequence': 5500, 'interp.range': 12000, 'interp.duration<2steps': 12000,
@@ -112,9 +113,15 @@ MIN_EVALS = {
               'fourier.step<=target': 2500, 'fourier.ratio-integer': 2500, 'fourier.bandlimited-exact': 2000,
               'fourier.args-unchanged': 2500, 'interp.via-gen_response_spectrum': 200,
               'purity.reused-array-unchanged': 800, 'purity.caller-array-unchanged': 200, 'history.monitored-call': 800,
-              'state.first-result-intact-after-second-call': 400, 'state.repeat-call-identical': 400,
+              'state.first-result-intact-after-second-call': 300, 'state.repeat-call-identical': 300,
               'interp.result-owns-data': 12000, 'interp_obj.result-owns-data': 5000, 'fourier.result-owns-data': 5000,
-              'interp_obj.agrees-with-array-level': 2500, 'purity.correcting-the-result-leaves-the-argument': 100},
+              'interp_obj.agrees-with-array-level': 2500, 'purity.correcting-the-result-leaves-the-argument': 100,
+              # round 3 (audit checklist 22-27)
+              'protocol.monitored-call': 800, 'protocol.copied-object-result==fresh-twin': 800,
+              'protocol.after-assignment-result==fresh-twin': 300, 'protocol.after-raise-result==fresh-twin': 450,
+              OOD_PURITY: 600, 'state.first-result-intact-after-second-call/varied-second-call': 500,
+              'state.repeat-call-identical/varied-second-call': 500, 'edge.monitored-call': 700,
+              'silent-or-one-signed.monitored-call': 250},
     'thorough': {'interp.step<=target': 250000, 'interp.ratio-integer': 250000, 'interp.retained-samples': 130000,
                  'interp.subsequence': 110000, 'interp.range': 250000, 'interp.duration<2steps': 250000,
                  'interp.even-length': 120000, 'interp.args-unchanged': 250000,
@@ -127,13 +134,17 @@ MIN_EVALS = {
                  'state.repeat-call-identical': 10000,
                  'interp.result-owns-data': 250000, 'interp_obj.result-owns-data': 100000,
                  'fourier.result-owns-data': 60000, 'interp_obj.agrees-with-array-level': 50000,
-                 'purity.correcting-the-result-leaves-the-argument': 2000}}
+                 'purity.correcting-the-result-leaves-the-argument': 2000,
+                 'protocol.monitored-call': 16000, 'protocol.copied-object-result==fresh-twin': 16000,
+                 'protocol.after-assignment-result==fresh-twin': 7000, 'protocol.after-raise-result==fresh-twin': 9000,
+                 OOD_PURITY: 12000, 'state.first-result-intact-after-second-call/varied-second-call': 14000,
+                 'state.repeat-call-identical/varied-second-call': 14000, 'edge.monitored-call': 20000,
+                 'silent-or-one-signed.monitored-call': 2500}}
 CTX = None
 K6 = 'C14/fourier-decimation-nondivisible'
 K6_ACCEPT_PARITY_TRIM = True   # also accept the FFT grid of len(y)+1 points when even=True (see ASSUMPTIONS / k6_explains)
 VIA = {'consumer': False}
 SCEN = {'spec': None}
-OOD_PURITY = 'purity.rejected-or-out-of-domain-call-args-unchanged'
 MAX_ORACLE_N = 300000        # longer Fourier inputs are counted, not judged
 ORACLE_BUDGET = 4e7          # harmonics x output samples the analytic reference may cost per call
 
